@@ -71,6 +71,7 @@ func init() {
 		PoolProb: 0.35,
 		Holds:    true,
 		DupDAG:   true,
+		BigSets:  6,
 	}
 	fw.Families["C13"] = func(k *fw.Case) { trace.RunCase(k, c13) }
 
